@@ -66,6 +66,7 @@ func c18Dirs(tier string, g *rand.Rand) [][]c18Entry {
 		[]c18Entry{{File: "10-good", Kind: "exec"}, {File: "20-dielater-c", Kind: "exec"}, {File: "30-also", Kind: "exec", ConfSpec: str(""), ConfGen: str("generic-not-used")}},
 		[]c18Entry{{File: "10-stubborn-a", Kind: "exec"}, {File: "20-good", Kind: "exec"}, {File: "30-stubborn-syncfail", Kind: "exec"}},
 		[]c18Entry{{File: "10-dropidle-a", Kind: "exec"}, {File: "20-good", Kind: "exec"}},
+		[]c18Entry{{File: "10-good", Kind: "exec"}, {File: "20-dropidle-b", Kind: "exec"}},
 		[]c18Entry{{File: "10-good", Kind: "exec"}, {File: "20-dieafter-a", Kind: "exec"}, {File: "30-also", Kind: "exec"}},
 		[]c18Entry{{File: "10-good", Kind: "exec"}, {File: "15-cfgfail-a", Kind: "exec", ConfGen: str("refused")}, {File: "30-also", Kind: "exec"}},
 		[]c18Entry{{File: "10-reidx-a", Kind: "exec", ConfSpec: str("specific-reidx")}, {File: "50-mid", Kind: "exec"}, {File: "95-last", Kind: "exec"}},
@@ -374,6 +375,16 @@ func runC18Case(root, probe string, entries []c18Entry, tag string, res *ev.Resu
 			time.Sleep(5 * time.Millisecond)
 		}
 		time.Sleep(50 * time.Millisecond)
+		for _, e := range launched {
+			if strings.Contains(e.File, "dropidle-b") {
+				// ... or with one request in between: the runtime comes across the closed plugin while serving it,
+				// takes it out of its chain there and then, and still has to get rid of the process
+				rt.A.StartContainer(context.Background(), &api.StateChangeEvent{Pod: &api.PodSandbox{Id: "p"}, Container: &api.Container{Id: tag + "-ev", PodSandboxId: "p"}})
+				time.Sleep(100 * time.Millisecond)
+				res.Count("idle_drops_followed_by_a_request_before_stop", 1)
+				break
+			}
+		}
 	}
 	// a creation request: everyone working is invoked, in index order, and contributes
 	ctrID := tag + "-c1"
@@ -538,7 +549,7 @@ func init() {
 	register(&Check{
 		ID: "C18", Level: "fault_enumeration", MinNontriv: 8,
 		Anchors: []string{"pkg/adaptation/adaptation.go", "pkg/adaptation/plugin.go", "pkg/net/socketpair.go", "pkg/net/socketpair_cloexec_linux.go", "pkg/net/conn.go", "pkg/stub/stub.go", "pkg/api/plugin.go"},
-		Rule:    "generated plugin directories (fixed list plus seeded random: 0-8 entries among executables NN-name incl. names with several dashes, non-executables, subdirectories; drop-ins specific / generic / both / neither incl. an empty specific one; failure-mode plugins: exits at once, never registers, fails its synchronization, dies on the first request) served by a real Adaptation in a child process holding bait descriptors; the launched binary is a probe built on the real stub that reports its environment, arguments and descriptor table (read with raw system calls before any Go I/O), its configuration and its invocations; oracles: launched set = executable regular NN-name files, each once; environment exactly the three variables; descriptors {0,1,2,3} with 3 a socket; configuration = specific else generic else empty; creation request invokes exactly the working plugins in index order and carries their adjustments; plugins that fail to register or synchronize are not running afterwards; nothing is running after Stop; probes that fail their configuration, probes ignoring SIGTERM/SIGINT/SIGHUP, one update per probe from Synchronize (exactly one per synchronized plugin reaches the runtime at Start), Stop under the hang rule; a probe that registers under another index and name than its file (file order must hold); every third directory served with external connections disabled; a probe that dies between requests followed by a StopContainer; distinct = distinct directory shapes (launched count, failure modes, drop-in combinations)",
+		Rule:    "generated plugin directories (fixed list plus seeded random: 0-8 entries among executables NN-name incl. names with several dashes, non-executables, subdirectories; drop-ins specific / generic / both / neither incl. an empty specific one; failure-mode plugins: exits at once, never registers, fails its synchronization, dies on the first request) served by a real Adaptation in a child process holding bait descriptors; the launched binary is a probe built on the real stub that reports its environment, arguments and descriptor table (read with raw system calls before any Go I/O), its configuration and its invocations; oracles: launched set = executable regular NN-name files, each once; environment exactly the three variables; descriptors {0,1,2,3} with 3 a socket; configuration = specific else generic else empty; creation request invokes exactly the working plugins in index order and carries their adjustments; plugins that fail to register or synchronize are not running afterwards; nothing is running after Stop; probes that fail their configuration, probes ignoring SIGTERM/SIGINT/SIGHUP, one update per probe from Synchronize (exactly one per synchronized plugin reaches the runtime at Start), Stop under the hang rule; a probe that registers under another index and name than its file (file order must hold); every third directory served with external connections disabled; a probe that dies between requests followed by a StopContainer; distinct = distinct directory shapes (launched count, failure modes, drop-in combinations); a plugin whose connection goes away while the runtime is idle, followed by Stop directly and, in a second directory, by one request and then Stop (nothing launched may be running afterwards)",
 		Assumptions: []string{
 			"a zombie left by a plugin that exited on its own is recorded, not asserted ('killed' is all the statement asks)",
 			"an executable file whose name does not parse makes Start fail as a whole in the current code; the property is silent on that and it is exercised without assertions",
